@@ -209,6 +209,10 @@ func storePresentation(tx *gorm.DB, serviceID string, timestamp int, presentatio
 	if err != nil {
 		return nil, err
 	}
+	if presentation.JWT() == nil || presentation.ID == nil {
+		// presentation.JWT() is nil for JSON-LD presentations, which a remote Discovery Service could return
+		return nil, errors.New("only JWT presentations with an ID are supported")
+	}
 
 	newPresentation := presentationRecord{
 		ID:                     uuid.NewString(),
